@@ -379,6 +379,9 @@ func runC05(c *core.Case) {
 			spec.NewPageN = cur + 3
 		case "shrink":
 			spec.NewPageN = cur - 4
+			if variant%2 == 1 {
+				spec.DirtyCut, spec.SpillAfter = 2, 2 // tail pages modified and spilled before they are cut off
+			}
 		case "multi-segment":
 			spec.Dirty = []uint32{2, 3, 4, 5, 6, 7, 8}
 			spec.SpillAfter = 3
